@@ -37,6 +37,19 @@ def work_item(args):
     """Runs in a worker process.  kind = 'function' | 'lemma'."""
     kind, prop_id, name, timeout_ms, known = args
     from lvc import prove
+    if kind == 'crosscheck':
+        out = {'kind': kind, 'name': name, 'obligations': [], 'paths': 0, 'status': 'ok', 'detail': None,
+               'assumptions': [], 'inlined': [], 'modelled': [], 'time_s': 0.0, 'sha': {}}
+        t0 = time.time()
+        try:
+            from lvc import crosscheck
+            world = build_world()
+            out['crosscheck'] = crosscheck.crosscheck_function(world, world.contracts[name], per_path=2, seed=timeout_ms % 997)
+        except Exception:
+            out['status'] = 'crash'
+            out['detail'] = traceback.format_exc()
+        out['time_s'] = round(time.time() - t0, 3)
+        return out
     out = {'kind': kind, 'name': name, 'obligations': [], 'paths': 0, 'status': 'ok', 'detail': None,
            'assumptions': [], 'inlined': [], 'modelled': [], 'time_s': 0.0, 'sha': {}}
     t0 = time.time()
@@ -146,6 +159,9 @@ def run_property(prop_id, tier='quick', seed=0, jobs=None):
     timeout_ms = 10000 if tier == 'quick' else 30000
     items = [('function', prop_id, q, timeout_ms, known) for q in mod.FUNCTIONS]
     items += [('lemma', prop_id, n, timeout_ms, known) for n, _ in getattr(mod, 'LEMMAS', [])]
+    if tier == 'thorough':
+        items += [('crosscheck', prop_id, q, timeout_ms + int(seed), known) for q in mod.FUNCTIONS
+                  if q not in getattr(mod, 'NO_CROSSCHECK', ())]
     jobs = jobs or min(16, max(1, len(items)))
     if jobs > 1:
         with mp.Pool(jobs) as pool:
@@ -159,9 +175,19 @@ def run_property(prop_id, tier='quick', seed=0, jobs=None):
     solver_time = 0.0
     paths = 0
     per_fn = {}
+    cross = []
     for r in results:
         if r['status'] == 'crash':
             crashes.append(r)
+            continue
+        if r['kind'] == 'crosscheck':
+            cc = r['crosscheck']
+            cross.append({k: v for k, v in cc.items() if k != 'disagree'})
+            cross[-1]['disagreements'] = len(cc['disagree'])
+            if cc['disagree']:
+                crashes.append({'name': 'crosscheck ' + r['name'],
+                                'detail': 'engine/contract disagrees with the real code on sampled inputs: %s'
+                                % json.dumps(cc['disagree'][0], default=str)[:1500]})
             continue
         paths += r['paths']
         assumptions |= set(r['assumptions'])
@@ -271,6 +297,7 @@ def run_property(prop_id, tier='quick', seed=0, jobs=None):
             'failed': [ob['name'] for _, ob in failed], 'undecided': [ob['name'] for _, ob in undecided],
             'known_findings_seen': ['%s [%s]' % k for k in sorted(known_seen)],
             'bounded': bounded,
+            'engine_vs_cpython_crosscheck': cross,
             'clause_table': getattr(mod, 'CLAUSES', []),
             'source_sha': sha,
             'exhaustive': False,
